@@ -28,11 +28,28 @@ pub struct Cfg {
     pub two_digests: bool,
     /// delegated steps may have two functionaries who each file (the same) sub-layout
     pub multi_sub: bool,
+    /// cardinality tail: occasionally many owners (9..70), many functionaries (9..130) with large authorised sets,
+    /// thresholds and link populations, and many steps (9, 17)
+    pub big: bool,
+    /// cardinality tail for the layout owners only (9..70)
+    pub big_owners: bool,
+}
+
+/// Mostly a size from the small range, occasionally one from the tail.
+pub fn tail_size(lo: usize, hi: usize, tail: &'static [usize]) -> BoxedStrategy<usize> {
+    prop_oneof![24 => lo..=hi, 1 => (0..tail.len()).prop_map(move |i| tail[i])].boxed()
+}
+
+/// `n` Ed25519 pool keys of distinct material (n <= 200), starting at a generated offset.
+pub fn many_keys(n: usize) -> BoxedStrategy<Vec<KeySpec>> {
+    (0usize..200, proptest::collection::vec(any::<bool>(), n))
+        .prop_map(move |(off, variants)| variants.into_iter().enumerate().map(|(i, pkcs8)| KeySpec::Ed { seed: ((off + i) % 200) as u8, pkcs8 }).collect())
+        .boxed()
 }
 
 impl Cfg {
     pub fn basic() -> Cfg {
-        Cfg { min_steps: 0, max_steps: 3, min_owners: 1, max_owners: 3, cheap: true, max_threshold: 3, rules: RuleMode::Permissive, sub_depth: 0, two_digests: false, multi_sub: false }
+        Cfg { min_steps: 0, max_steps: 3, min_owners: 1, max_owners: 3, cheap: true, max_threshold: 3, rules: RuleMode::Permissive, sub_depth: 0, two_digests: false, multi_sub: false, big: false, big_owners: false }
     }
 }
 
@@ -52,7 +69,16 @@ pub struct StepPlan {
 fn step_plan(nfunc: usize, cfg: Cfg, owner_for_sub: Option<()>) -> BoxedStrategy<StepPlan> {
     let _ = owner_for_sub;
     (
-        proptest::sample::subsequence((0..nfunc).collect::<Vec<_>>(), 1..=nfunc.min(4)),
+        if cfg.big && nfunc > 8 {
+            prop_oneof![
+                2 => proptest::sample::subsequence((0..nfunc).collect::<Vec<_>>(), 1..=4usize),
+                1 => proptest::sample::subsequence((0..nfunc).collect::<Vec<_>>(), nfunc / 2..=nfunc),
+                1 => Just((0..nfunc).collect::<Vec<_>>()),
+            ]
+            .boxed()
+        } else {
+            proptest::sample::subsequence((0..nfunc).collect::<Vec<_>>(), 1..=nfunc.min(4)).boxed()
+        },
         any::<prop::sample::Index>(),
         any::<prop::sample::Index>(),
         artifacts(3, cfg.two_digests),
@@ -63,7 +89,7 @@ fn step_plan(nfunc: usize, cfg: Cfg, owner_for_sub: Option<()>) -> BoxedStrategy
     )
         .prop_map(move |(authorized, ti, li, materials, products, command, ret, zero_t)| {
             let k = authorized.len();
-            let tmax = (cfg.max_threshold as usize).min(k).max(1);
+            let tmax = if cfg.big && k > 8 { k } else { (cfg.max_threshold as usize).min(k).max(1) };
             let t = 1 + ti.index(tmax);
             let n_links = t + li.index(k - t + 1);
             StepPlan { threshold: if zero_t && t == 1 { 0 } else { t as u32 }, authorized, n_links, materials, products, command, ret, sub: None }
@@ -73,18 +99,30 @@ fn step_plan(nfunc: usize, cfg: Cfg, owner_for_sub: Option<()>) -> BoxedStrategy
 
 /// (world, owner keys). All checks of the verifier pass on it.
 pub fn valid_world(cfg: Cfg) -> BoxedStrategy<(World, Vec<KeySpec>)> {
-    let owners = cfg.min_owners..=cfg.max_owners;
-    (owners, 2usize..=5)
-        .prop_flat_map(move |(no, nf)| distinct_keys(no + nf, no + nf, cfg.cheap).prop_map(move |ks| (ks[..no].to_vec(), ks[no..].to_vec())))
+    let owners: BoxedStrategy<usize> = if cfg.big_owners && cfg.max_owners > 1 { prop_oneof![60 => cfg.min_owners..=cfg.max_owners, 1 => Just(9usize), 1 => Just(33usize), 1 => Just(64usize), 2 => Just(65usize), 1 => Just(70usize)].boxed() } else { (cfg.min_owners..=cfg.max_owners).boxed() };
+    let funcs: BoxedStrategy<usize> = if cfg.big { tail_size(2, 5, &[9, 17, 33, 65, 70, 130]) } else { (2usize..=5).boxed() };
+    (owners, funcs)
+        .prop_flat_map(move |(no, nf)| {
+            if no + nf > 10 {
+                many_keys(no + nf).prop_map(move |ks| (ks[..no].to_vec(), ks[no..].to_vec())).boxed()
+            } else {
+                distinct_keys(no + nf, no + nf, cfg.cheap).prop_map(move |ks| (ks[..no].to_vec(), ks[no..].to_vec())).boxed()
+            }
+        })
         .prop_flat_map(move |(owners, funcs)| valid_world_with(cfg, owners, funcs))
         .boxed()
 }
 
 pub fn valid_world_with(cfg: Cfg, owners: Vec<KeySpec>, funcs: Vec<KeySpec>) -> BoxedStrategy<(World, Vec<KeySpec>)> {
     let nf = funcs.len();
-    let plans = proptest::collection::vec(step_plan(nf, cfg, None), cfg.min_steps..=cfg.max_steps);
+    let plans = if cfg.big && nf <= 8 {
+        // many steps only with few functionaries (cost)
+        tail_size(cfg.min_steps, cfg.max_steps, &[9, 12, 17]).prop_flat_map(move |n| proptest::collection::vec(step_plan(nf, cfg, None), n)).boxed()
+    } else {
+        proptest::collection::vec(step_plan(nf, cfg, None), cfg.min_steps..=cfg.max_steps).boxed()
+    };
     let subs: BoxedStrategy<Vec<Option<(World, Vec<KeySpec>)>>> = if cfg.sub_depth > 0 {
-        let inner_cfg = Cfg { sub_depth: cfg.sub_depth - 1, min_owners: 1, max_owners: 1, min_steps: 0, max_steps: 2, ..cfg };
+        let inner_cfg = Cfg { sub_depth: cfg.sub_depth - 1, min_owners: 1, max_owners: 1, min_steps: 0, max_steps: 2, big: false, big_owners: false, ..cfg };
         // inner functionaries are a fresh draw; the inner owner is fixed up in `assemble`
         proptest::collection::vec(proptest::option::weighted(0.5, valid_world(inner_cfg)), cfg.max_steps.max(1)).boxed()
     } else {
@@ -127,7 +165,8 @@ fn assemble(
             }
         };
         let auth: Vec<KeySpec> = p.authorized.iter().map(|a| funcs[*a].clone()).collect();
-        let sub = subs.get(i).cloned().flatten();
+        // (worlds with more steps than generated inner worlds reuse them cyclically)
+        let sub = if subs.is_empty() { None } else { subs[i % subs.len()].clone() };
         match sub {
             Some((inner, _)) => {
                 // delegated step: each delegating functionary's key owns (signs) its copy of the inner layout
